@@ -112,6 +112,10 @@ type world struct {
 	noise   [][]byte  // transactions that are only simulated / check-tx'ed in noise mode, never delivered
 	execd   map[string]uint64
 	restarts, noises int
+	mustPass, votedAll map[uint64]bool // indexed only
+	sacrID     []byte
+	sacr       string // a sacrificial erc20 pair: its stored record gets corrupted by a passed MsgUpdateStore proposal
+	panicStage int    // 0 nothing yet, 1 corrupting proposal submitted, 2 toggle proposal (handler panics) submitted
 	migN   int
 	cur    []OpRes
 	stats  map[string]int
@@ -139,7 +143,7 @@ func newWorld(seed int64, histSeed int64, mode string) *world {
 	c := lib.NewChain(seed, 4, nil)
 	w := &world{c: c, r: lib.NewRand(histSeed), chains: []string{"eth", "bsc", "tron"}, xs: map[string]*lib.XChain{}, stats: map[string]int{}, height: 1000,
 		seqOff: map[string]uint64{}, backlog: map[string][]claimMaker{}, base: map[string]uint64{},
-		mode: mode, nr: lib.NewRand(histSeed ^ 0x5eed), execd: map[string]uint64{}}
+		mode: mode, nr: lib.NewRand(histSeed ^ 0x5eed), execd: map[string]uint64{}, mustPass: map[uint64]bool{}, votedAll: map[uint64]bool{}}
 	for i := 0; i < 6; i++ {
 		u := lib.EthKey(seed, "c17-user", i)
 		w.users = append(w.users, u)
@@ -167,6 +171,9 @@ func newWorld(seed int64, histSeed int64, mode string) *world {
 	t1, err := c.SetupModuleOwned("USDV", 1, w.chains, "channel-0")
 	lib.Must(err)
 	w.toks = append(w.toks, t1)
+	sac, err := c.SetupModuleOwned("SACR", 7, []string{"eth"}, "")
+	lib.Must(err)
+	w.sacr = sac.Base
 	openTransferChannel(c, "channel-0")
 	mintIBCVouchers(c, t1.IBCDenom, 1_000_000_000_000)
 	t2, err := c.SetupExternal("EXTT", 2, w.users[0], []string{"eth", "bsc"})
@@ -803,12 +810,24 @@ func (w *world) votes() {
 	_ = c.App.GovKeeper.Keeper.Proposals.Walk(c.Ctx, nil, func(id uint64, p govv1.Proposal) (bool, error) {
 		if p.Status == govv1.StatusVotingPeriod {
 			ids = append(ids, id)
+			if len(p.Messages) > 0 && (p.Messages[0].TypeUrl == "/fx.gov.v1.MsgUpdateStore" || p.Messages[0].TypeUrl == "/fx.erc20.v1.MsgToggleTokenConversion") {
+				w.mustPass[id] = true
+			}
 		}
 		return false, nil
 	})
 	w.voting = len(ids)
 	opts := []govv1.VoteOption{govv1.OptionYes, govv1.OptionYes, govv1.OptionYes, govv1.OptionNo, govv1.OptionAbstain, govv1.OptionNoWithVeto}
 	for _, id := range ids {
+		if w.mustPass[id] { // the corrupting / panicking pair of proposals: every validator votes yes (once)
+			if !w.votedAll[id] {
+				w.votedAll[id] = true
+				for _, vk := range c.ValKeys {
+					w.tx("Vote(validator,yes)", vk, &govv1.MsgVote{ProposalId: id, Voter: vk.Acc().String(), Option: govv1.OptionYes})
+				}
+			}
+			continue
+		}
 		for _, i := range r.Perm(len(c.ValKeys)) {
 			if r.Chance(45) {
 				vk := c.ValKeys[i]
@@ -821,6 +840,49 @@ func (w *world) votes() {
 					{Option: govv1.OptionYes, Weight: "0.6"}, {Option: govv1.OptionNo, Weight: "0.4"}}, ""))
 			}
 		}
+	}
+}
+
+// panickingProposal: a proposal that PASSES and whose message handler PANICS (x/gov recovers the panic and
+// stores the failure reason in the proposal and in the active_proposal event).  Reached with gov messages only:
+// proposal #1 (MsgUpdateStore) overwrites the stored record of the sacrificial erc20 pair with undecodable
+// bytes; proposal #2 (MsgToggleTokenConversion for that pair) then panics in MustUnmarshal when it is executed.
+func (w *world) panickingProposal(block int) {
+	c := w.c
+	if block < 8 || w.panicStage >= 2 {
+		return
+	}
+	proposer := w.users[1]
+	id, ok := w.sacrID, true
+	if w.panicStage == 0 {
+		pair, found := c.App.Erc20Keeper.GetTokenPair(c.Ctx, w.sacr)
+		if !found {
+			return
+		}
+		id = pair.GetID()
+		w.sacrID = id
+	}
+	_ = ok
+	key := append(append([]byte{}, erc20types.KeyPrefixTokenPair...), id...)
+	cur := c.Ctx.KVStore(c.App.GetKey(erc20types.StoreKey)).Get(key)
+	corrupt := "ffff01"
+	switch w.panicStage {
+	case 0:
+		m, err := govv1.NewMsgSubmitProposal([]sdk.Msg{&fxgovtypes.MsgUpdateStore{Authority: lib.GovAuthority(), UpdateStores: []fxgovtypes.UpdateStore{{
+			Space: erc20types.StoreKey, Key: hex.EncodeToString(key), OldValue: hex.EncodeToString(cur), Value: corrupt}}}},
+			sdk.NewCoins(lib.FX(10_000)), proposer.Acc().String(), "", "corrupt a token pair record", "summary", false)
+		lib.Must(err)
+		w.tx("SubmitProposal(UpdateStore)", proposer, m)
+		w.panicStage = 1
+	case 1:
+		if hex.EncodeToString(cur) != corrupt {
+			return // proposal #1 has not been executed yet
+		}
+		m, err := govv1.NewMsgSubmitProposal([]sdk.Msg{&erc20types.MsgToggleTokenConversion{Authority: lib.GovAuthority(), Token: w.sacr}},
+			sdk.NewCoins(lib.FX(10_000)), proposer.Acc().String(), "", "toggle the corrupted pair", "summary", false)
+		lib.Must(err)
+		w.tx("SubmitProposal(Toggle,panics)", proposer, m)
+		w.panicStage = 2
 	}
 }
 
@@ -884,6 +946,7 @@ func (w *world) run(blocks int) []BlockRes {
 			w.step()
 		}
 		w.votes()
+		w.panickingProposal(b)
 		w.executePending()
 		w.stakeTraffic()
 		for _, ch := range w.chains { // lagging oracles catch up
